@@ -215,7 +215,12 @@ def run_lib(case):
         ins = {"X": fm.Info(time=None, grid=fm.NoGrid(), units=None)}
         if clock is not None:
             ins["Clock"] = fm.Info(time=None, grid=fm.NoGrid(), units=None)
-        if ck[0] == "push":
+        if ck[0] == "monthly":
+            # the library's CallbackComponent on a calendar step (relativedelta), started at a month end
+            from dateutil.relativedelta import relativedelta
+
+            cons = watch("C", fm.components.CallbackComponent(inputs=ins, outputs={}, callback=lambda inp, t: {}, start=T0 + ck[1] * day, step=relativedelta(months=1)))
+        elif ck[0] == "push":
             cons = watch("C", fm.components.DebugPushConsumer(inputs=ins))
         elif ck[0] == "debug":
             cons = watch("C", fm.components.DebugConsumer(inputs=ins, start=T0, step=ck[1] * day))
@@ -225,7 +230,10 @@ def run_lib(case):
         if case["order"] == "rev":
             listed.reverse()
         comp = fm.Composition(listed, print_log=False, log_level=50)
-        prod.outputs[pout] >> cons.inputs["X"]
+        if ck[0] == "monthly":
+            prod.outputs[pout] >> fm.adapters.LinearTime() >> cons.inputs["X"]
+        else:
+            prod.outputs[pout] >> cons.inputs["X"]
         if clock is not None:
             clock.outputs["Out"] >> cons.inputs["Clock"]
         end = T0 + case["end"] * day
@@ -273,6 +281,10 @@ def lib_cases(tier):
                         if cons[0] == "push" and kstep is None and prod[0] == "csv" and end > prod[1] - 1:
                             continue  # nothing keeps the run going beyond the file: the reader finishes, fine, but covered by the clocked variant
                         out.append(dict(lib=True, prod=list(prod), cons=list(cons), kstep=kstep, end=end, order=order))
+    for startday in (0, 27, 28, 29, 30):
+        for pstep in (1, 3):
+            for order in ("id", "rev"):
+                out.append(dict(lib=True, prod=["gen", pstep], cons=["monthly", startday], kstep=None, end=130, order=order))
     return out
 
 
